@@ -4,45 +4,72 @@ of a well-formed tree are real leftmost / rightmost derivations.
 -/
 import Pfl.Oracle.Trees
 import Pfl.Proofs.CFGBase
+import Pfl.Proofs.Trees
 namespace Pfl
 namespace CFG
+open Pfl.CFG.Trees
 
 /-- a tree accepted by the checker witnesses derivability -/
 theorem treeValid_sound (G : CFG) (t : PTree) (w : List String) (h : G.treeValid t w = true) :
     G.Lang w := by
-  sorry
+  unfold treeValid at h
+  rw [Bool.and_eq_true, Bool.and_eq_true, decide_eq_true_eq] at h
+  obtain ⟨⟨hs, hw⟩, rfl⟩ := h
+  rw [lang_iff_gen]
+  cases hst : G.start with
+  | none => rw [hst] at hs; cases hs
+  | some s =>
+    rw [hst] at hs
+    simp only [decide_eq_true_eq] at hs
+    refine ⟨s, rfl, ?_⟩
+    rw [← hs]
+    exact wfT_gen G t hw
 
 /-- every generated word has a tree accepted by the checker -/
 theorem treeValid_complete (G : CFG) (w : List String) (h : G.Lang w) :
     ∃ t, G.treeValid t w = true := by
-  sorry
+  rw [lang_iff_gen] at h
+  obtain ⟨s, hs, hg⟩ := h
+  obtain ⟨t, e, hw, hy⟩ := gen_tree G hg
+  refine ⟨t, ?_⟩
+  unfold treeValid
+  rw [Bool.and_eq_true, Bool.and_eq_true, decide_eq_true_eq]
+  refine ⟨⟨?_, hw⟩, hy⟩
+  rw [hs]
+  simpa using e
 
 theorem wellFormedT_gen (G : CFG) (t : PTree) (h : G.wellFormedT t = true) :
-    G.Gen t.sym (yieldT t) := by
-  sorry
+    G.Gen t.sym (yieldT t) := wfT_gen G t h
 
 /-- one accepted leftmost step is a derivation step -/
-theorem leftStep_derives (G : CFG) (u v : List Sym) (h : G.leftStep u v = true) : G.Derives u v := by
-  sorry
+theorem leftStep_derives (G : CFG) (u v : List Sym) (h : G.leftStep u v = true) : G.Derives u v :=
+  leftStep_derives' G u v h
 
-theorem rightStep_derives (G : CFG) (u v : List Sym) (h : G.rightStep u v = true) : G.Derives u v := by
-  sorry
+theorem rightStep_derives (G : CFG) (u v : List Sym) (h : G.rightStep u v = true) : G.Derives u v :=
+  rightStep_derives' G u v h
 
 /-- an accepted listing is a derivation of the word from the root symbol -/
 theorem derivationValid_sound (G : CFG) (left : Bool) (root : Sym) (lines : List (List Sym))
     (w : List String) (h : G.derivationValid left root lines w = true) :
     G.Derives [root] (w.map .ter) := by
-  sorry
+  unfold derivationValid at h
+  rw [Bool.and_eq_true, Bool.and_eq_true, decide_eq_true_eq, decide_eq_true_eq] at h
+  obtain ⟨⟨h1, h2⟩, h3⟩ := h
+  refine chain_derives G _ ?_ lines _ _ h1 h2 h3
+  intro u v huv
+  cases left with
+  | true => exact leftStep_derives G u v (by simpa using huv)
+  | false => exact rightStep_derives G u v (by simpa using huv)
 
 /-- `get_leftmost_derivation` of a well-formed tree is accepted by the checker -/
 theorem leftmostD_valid (G : CFG) (t : PTree) (h : G.wellFormedT t = true) :
-    G.derivationValid true t.sym (leftmostD t) (yieldT t) = true := by
-  sorry
+    G.derivationValid true t.sym (leftmostD t) (yieldT t) = true :=
+  leftmostD_valid' G t h
 
 /-- `get_rightmost_derivation` of a well-formed tree is accepted by the checker -/
 theorem rightmostD_valid (G : CFG) (t : PTree) (h : G.wellFormedT t = true) :
-    G.derivationValid false t.sym (rightmostD t) (yieldT t) = true := by
-  sorry
+    G.derivationValid false t.sym (rightmostD t) (yieldT t) = true :=
+  rightmostD_valid' G t h
 
 end CFG
 end Pfl
